@@ -5,6 +5,7 @@ from: https://stackoverflow.com/a/35804945
 """
 
 import atexit
+import json
 import logging
 from typing import Dict
 
@@ -59,7 +60,13 @@ def add_logging_level(level_name, level_num, method_name=None):
             try:
                 message = orjson.dumps(message)
             except:
-                message = str(message)
+                # orjson refuses some dictionaries the standard library can still write as
+                # JSON (integers beyond 64 bits, unpaired surrogates, deep nesting); only a
+                # JSON message is sanitised by the formatter, str(dict) would be printed as is
+                try:
+                    message = json.dumps(message, default=str)
+                except Exception:
+                    message = str(message)
         # not just the json decoder outputs in bytes, make it a string
         if isinstance(message, bytes):
             message = message.decode()
